@@ -99,10 +99,17 @@ class C09(C06):
 
     def matches_known(self, k, case, impl_obs, why):
         """F15: a select whose selector value flows through a multi-element pattern (term attribute / reference passed
-        through a function) compares the isolated string"""
+        through a function) compares the isolated string.  F15 is a property of the code AS IT IS, and the model is a
+        transcription of that code: a failure is explained by F15 only when (1) it is a failure of the additivity
+        clause, (2) the source has such a select, and (3) the MODEL shows exactly the same observation - a change of
+        the code that breaks the clause in another way makes implementation and model differ and is reported.
+        A model-vs-implementation disagreement is never explained by F15."""
         if k.get("id") != "F15":
             return False
-        if "removing the marks" not in str(why) and "error lists differ" not in str(why) and why != "disagreement":
+        if "removing the marks" not in str(why) and "error lists differ" not in str(why):
+            return False
+        m = getattr(self, "current_model_obs", None)
+        if m is None or self.project(case, impl_obs) != self.project(case, m):
             return False
         src = resfam.sources(case).decode("utf-8", "replace")
         return re.search(r"\{\s*(-[a-z0-9]+\.[a-z]+(\([^)]*\))?|[A-Z]+\([^)]*(-?[a-z][a-z0-9]*)[^)]*\))\s*->", src) is not None
